@@ -83,8 +83,11 @@ class Pi(schemes.interface.inverted_index_sse.InvertedIndexSSE):
         for i in range(t + 1):
             d_len = (2 ** i) * len(self.config.ske.Encrypt(b"\x00" * self.config.param_k_prime,
                                                            b"\x00" * self.config.param_identifier_size))
+            # Level i > 0 holds the lists with 2^{i-1} < |DB(w)| <= 2^i, so there are fewer than N / 2^{i-1} = 2^{t-i+1}
+            # of them (and at most N = 2^t lists of one element at level 0): pad each level to that many entries.
+            level_capacity = 2 ** t if i == 0 else 2 ** (t - i + 1)
             T_list[i].extend(
-                ((os.urandom(self.config.param_l), os.urandom(d_len)) for _ in range((2 ** (t - i)) - len(T_list[i]))))
+                ((os.urandom(self.config.param_l), os.urandom(d_len)) for _ in range(level_capacity - len(T_list[i]))))
 
         # padding list S to N elements (fillers have the length of a real encrypted list length)
         n_len = len(self.config.ske.Encrypt(b"\x00" * self.config.param_k_prime,
